@@ -598,3 +598,49 @@ func constMapKeysIn(fn *ssa.Function) []constant.Value {
 	})
 	return out
 }
+
+// globalMapLiteralKeys: the constant string keys of the map literal a package-level variable is initialised with
+// (whatever happens to the map afterwards).
+func globalMapLiteralKeys(g *ssa.Global) []string {
+	if g.Pkg == nil {
+		return nil
+	}
+	init := g.Pkg.Func("init")
+	if init == nil {
+		return nil
+	}
+	var out []string
+	instrsOf(init, func(in ssa.Instruction) {
+		st, ok := in.(*ssa.Store)
+		if !ok || st.Addr != ssa.Value(g) {
+			return
+		}
+		mm, ok := st.Val.(*ssa.MakeMap)
+		if !ok || mm.Referrers() == nil {
+			return
+		}
+		for _, r := range *mm.Referrers() {
+			if mu, ok := r.(*ssa.MapUpdate); ok && mu.Map == ssa.Value(mm) {
+				if k, ok := constStr(mu.Key); ok {
+					out = append(out, k)
+				}
+			}
+		}
+	})
+	return out
+}
+
+// globalMapsLoadedIn: package-level map variables read in fn.
+func globalMapsLoadedIn(fn *ssa.Function) []*ssa.Global {
+	var out []*ssa.Global
+	instrsOf(fn, func(in ssa.Instruction) {
+		if u, ok := in.(*ssa.UnOp); ok {
+			if g, ok := u.X.(*ssa.Global); ok {
+				if _, isMap := derefType(g.Type()).Underlying().(*types.Map); isMap {
+					out = append(out, g)
+				}
+			}
+		}
+	})
+	return out
+}
